@@ -128,7 +128,8 @@ class SelfOracle:
         _, self.t0, self.tick, self.step_size = ctor["args"][:4]
         self.steps = 0
         self.series = {k: [] for k in CANON_MD_KEYS}
-        self.row = None
+        # before the first step the environment describes the empty book it was constructed with
+        self.row = [0, 0, PMAX, 0, 0] + [0] * 40
 
     def after_step(self, obj):
         self.steps += 1
